@@ -1463,7 +1463,7 @@ static void DecodeDC(Word Index) {
     UNUSED(Index);
 
     as_tempres_ini(&t);
-    if (ChkArgCnt(1, ArgCntMax)) {
+    if (ChkArgCnt(1, ArgCntMax) && ChkArgCodeSpace(2)) {
         OK = True;
         for (z = 1; z <= ArgCnt; z++) {
             if (OK) {
